@@ -36,8 +36,11 @@ class Kernel:
 
 
 class KGen:
-    def __init__(self, rng, real_only=False, allow_unsafe=True, passive_temps=True, cond_on_reals=True, shift=0):
+    def __init__(self, rng, real_only=False, allow_unsafe=True, passive_temps=True, cond_on_reals=True, shift=0, init_locals=False):
         self.r = rng
+        # compiled tier: a TL kernel that reads a local before assigning it is not a defined Fortran program (gfortran
+        # hands it stack garbage, the adjoint zeroes its locals): local active temporaries are zeroed at the top
+        self.init_locals = init_locals
         self.shift = shift          # compiled tier: arrays declared (0:40), every subscript shifted by `shift`
         self.real_only = real_only
         self.allow_unsafe = allow_unsafe
@@ -257,6 +260,8 @@ class KGen:
         if self.ptemps:
             self.features.add("passive-temp")
             body.append("  pt = " + r.choice(["2.0 * p", "p + q", "p * q"]))
+        if self.init_locals:
+            body += [f"  {w} = 0.0" for w in self.locals]
         body += self.block([], r.randint(2, 5), "  ", 0)
         if self.locals:
             self.features.add("active-local")
